@@ -42,7 +42,12 @@ def families(tier):
              {'name': 'published', 'params': {'P': 2, 'lines': True, 'methods': ['is_dir', 'declare_read', 'subbuild'], 'owners': ['build_file'],
                                               'raises': [False]}, 'weight': 2},
              {'name': 'after-close', 'params': {'P': 0, 'methods': METHODS}, 'weight': 1},
+             {'name': 'after-close', 'params': {'P': 0, 'methods': ['is_dir', 'declare_read', 'subbuild', 'build_file'], 'raises': ['base']}, 'weight': 1},
              {'name': 'after-owner', 'params': {'P': 0, 'methods': METHODS, 'owners': ['subbuild', 'build_file']}, 'weight': 1}])
+
+
+class Interrupt(BaseException):
+    """What a build function may be aborted with (KeyboardInterrupt, SystemExit): not an Exception."""
 
 
 def read_cache_doc(w):
@@ -153,6 +158,8 @@ def harness(eng, fam, P):
                 s.spawn(lambda: watcher(b2), 'straggler')
             if fn is not None:
                 w.user_write(w.fs, fn, 4)
+            if owner_raises == 'base':
+                raise Interrupt()           # not an Exception: KeyboardInterrupt / SystemExit style abort of the build
             if owner_raises:
                 raise Boom()
             return 1
@@ -180,6 +187,8 @@ def harness(eng, fam, P):
                 res['build'] = FileBuilder.build(w.cache, 'n', root)
             except Boom:
                 res['build'] = 'build raised (rolled back)'
+            except Interrupt:
+                res['build'] = 'build aborted by a BaseException'
             if fam == 'after-close':
                 call(holder['b'])
 
@@ -194,7 +203,7 @@ def harness(eng, fam, P):
             if tick in w.env.hooks:
                 w.env.hooks.remove(tick)
             s.close()
-        sig = (fam, owner, 'raises' if owner_raises else 'returns', method)
+        sig = (fam, owner, ('aborts' if owner_raises == 'base' else 'raises') if owner_raises else 'returns', method)
         eng.path_info['schedule'] = s.trace[:8]
         v = res.get('v')
         if v is None and fam != 'published':
